@@ -65,7 +65,10 @@ def check_one(rec, model, Sid, s, rng, forced=False):
     forms.append(("string_again", lambda: Sid(s) if not forced else Sid(x.uri)))
     forms.append(("copy", lambda: x.copy()))
     forms.append(("repr", lambda: eval(repr(x), {"Sid": Sid})))
-    if not forced:
+    unique_by_keys = model.types_of(fields) == [x.type]
+    if not forced or unique_by_keys:
+        if forced:
+            rec.count("forced_but_unique_key_set")
         items = list(fields.items())
         for k in range(3):
             sh = items[:]
